@@ -184,8 +184,14 @@ fn traffic_on_other_keys(h: &mut BlockHandler<CountedEp>, live: &Arc<AtomicIsize
                 do_exchange(h, &ep, &get(&path, i as u16, 1, Some(block_bytes(0, false, 0))), &small_reply())?;
             }
             3 => {
-                // an upload that is started and abandoned
-                do_exchange(h, &ep, &put(&path, i as u16, 3, block_bytes(0, true, 0), vec![0x11; 16]), &small_reply())?;
+                // an upload that is started and abandoned - in half of the
+                // cases by K's own endpoint, each on a path of its own
+                if seed & 1 == 1 {
+                    let mine = format!("mine{i}").into_bytes();
+                    do_exchange(h, &me, &put(&mine, i as u16, 3, block_bytes(0, true, 0), vec![0x11; 16]), &small_reply())?;
+                } else {
+                    do_exchange(h, &ep, &put(&path, i as u16, 3, block_bytes(0, true, 0), vec![0x11; 16]), &small_reply())?;
+                }
             }
             _ => {
                 // a complete two-block upload
@@ -394,7 +400,7 @@ pub fn run(ctx: &Ctx, rep: &mut Report) {
         ctx,
         rep,
         "retention-under-intervening-traffic",
-        "expiry one hour: a Block2 download (cached after block 0) or a Block1 upload (1..=4 blocks buffered) on key K, then 1..=2000 exchanges on other keys (plain, abandoned and complete downloads and uploads, ~97 endpoints x 53 paths x 4 methods), then K is continued; non-trivial = >= 100 intervening exchanges",
+        "expiry one hour: a Block2 download (cached after block 0) or a Block1 upload (1..=4 blocks buffered) on key K, then 1..=2000 exchanges on other keys (plain, abandoned and complete downloads and uploads, ~97 endpoints x 53 paths x 4 methods; in half of the cases the abandoned uploads come from K's own endpoint on distinct paths), then K is continued; non-trivial = >= 100 intervening exchanges",
         n,
         || {
             (any::<bool>(), prop_oneof![2 => 1u16..=60, 3 => 100u16..=2000], any::<u16>(), 1u8..=4)
